@@ -272,6 +272,8 @@ def go_test(pkgs, pkgdir, run, env=None, timeout=1200, race=False, tmp=None, cov
         if re.search(r"^panic: vf:", o, re.M):           # the harness's own assertions all start with "vf:"
             sys.stderr.write(o[-3000:])
             raise Infra("the harness panicked (not the code under test) in %s -run %s" % (pkgdir, run))
+        if "VF-HANG scenario=" in o:                    # the harness watchdog: a goroutine of the code under test is deadlocked
+            raise ProductCrash(o)
         if race and "WARNING: DATA RACE" in o and "[build failed]" not in o:
             raise DataRace(o)
         if re.search(r"^(panic:|fatal error:)", o, re.M) and "[build failed]" not in o and "[setup failed]" not in o:
